@@ -46,6 +46,7 @@ struct ReqSpec {
   int resubmits = 0;   // waiter re-submits after an error result this many times (sendAndWait emulation)
   bool late = false;   // not enqueued at start: offered as ENQUEUE alternative at every read
   bool external = false;  // submitted by a client thread of the harness (schedmc), not by the world
+  bool failsByScript = false;  // the scripted participant makes the exchange fail even in a fault-free environment
   Script responder;    // behaviour of the addressed participant after ebusd won arbitration
   std::vector<std::pair<uint8_t, Script>> extraResponders;  // further addresses this request talks to after a restart (scan)
 };
@@ -193,6 +194,7 @@ class World {
   // requests
   std::vector<MasterSymbolString> masters;
   std::vector<BusRequest*> reqObj; // nullptr once destroyed / not created (TReq, or TPoll for kind 2)
+  int devCount = 0;                // adverse environment events so far (non-default choices except chunking and late requests, scripted losses/silences)
   bool timeExact = false;          // the exact time since the last received symbol is part of the state (scenarios with scripted pauses)
   void* pollCtx = nullptr;         // kind 2: message map with the chained poll message (BUSMC_WITH_POLL)
   std::vector<int> reqState;       // 0 not submitted, 1 submitted (in flight), 2 completed
